@@ -493,15 +493,15 @@ package dt
 //@ func (*Set).forceSetupOrdered
 //@   props C18
 //@   requires s != nil && s.hash != nil && s.list == nil && (forall k: int :: haskey(s.hash, k) ==> s.hash[k] == nil)
-//@   modifies s.list, mapelems(s.hash), List.root, List.length, Element.list, Element.next, Element.prev, List.elems, List.lastIns, Element.idx
-//@   ensures setinv(s) && s.list != nil && fresh(s.list) && s.hash == old(s.hash)
+//@   modifies s.list, s.hash, List.root, List.length, Element.list, Element.next, Element.prev, List.elems, List.lastIns, Element.idx
+//@   ensures setinv(s) && s.list != nil && fresh(s.list)
 //@   ensures keys: forall k: int :: haskey(s.hash, k) == old(haskey(s.hash, k))
 //@   ensures size: len(s.hash) == old(len(s.hash))
-//@   loop 1 invariant s.list != nil && fresh(s.list) && lwf(s.list) && s.hash == old(s.hash) && len(s.hash) == old(len(s.hash)) && visitcount() == len(s.list.elems)
-//@   loop 1 invariant forall k: int :: haskey(s.hash, k) == old(haskey(s.hash, k))
-//@   loop 1 invariant forall k: int :: visited(k) ==> haskey(s.hash, k) && s.hash[k] != nil && member(s.list, s.hash[k]) && cast(s.hash[k], "*Element").item == k
-//@   loop 1 invariant forall k: int :: haskey(s.hash, k) && !visited(k) ==> s.hash[k] == nil
-//@   loop 1 invariant forall i: int :: 0 <= i && i < len(s.list.elems) ==> visited(cast(s.list.elems[i], "*Element").item) && s.hash[cast(s.list.elems[i], "*Element").item] == s.list.elems[i]
+//@   loop 1 invariant s.list != nil && fresh(s.list) && lwf(s.list) && s.hash == old(s.hash) && hash != nil && fresh(hash) && hash != s.hash && visitcount() == len(s.list.elems) && len(hash) == visitcount()
+//@   loop 1 invariant (forall k: int :: haskey(s.hash, k) == old(haskey(s.hash, k))) && len(s.hash) == old(len(s.hash))
+//@   loop 1 invariant forall k: int :: visited(k) ==> haskey(s.hash, k) && haskey(hash, k) && hash[k] != nil && member(s.list, hash[k]) && cast(hash[k], "*Element").item == k
+//@   loop 1 invariant forall k: int :: haskey(hash, k) ==> visited(k)
+//@   loop 1 invariant forall i: int :: 0 <= i && i < len(s.list.elems) ==> visited(cast(s.list.elems[i], "*Element").item) && hash[cast(s.list.elems[i], "*Element").item] == s.list.elems[i]
 
 // Sorting keeps the set's members and the index/order coupling; the order is
 // sorted afterwards (SortQuick: stably, see List.SortQuick). NOT PROVED for
